@@ -2,6 +2,7 @@
 //! See /verif/DESIGN.md.
 pub mod countsched;
 pub mod enumerate;
+pub mod filesets;
 pub mod guard;
 pub mod refs;
 pub mod run;
